@@ -2,9 +2,17 @@
 //! unary, quantifier operators); `lex_combining_op` is layout-insensitive.
 //!
 //! Every case is a loop-free assert on a string literal (no symbolic selection
-//! of the spelling).  One harness per alias pair: every failed `expect` inside
-//! the generated lexer drops a `LexErrorKind`, whose drop glue (BTreeSet of the
-//! TypeMismatch variant) CBMC explores although it is dead - ~10 s apiece.
+//! of the spelling), one obligation per spelling.
+//!
+//! `lex::expect` (and `lex::skip_space` in the lex_combining_op obligations) are
+//! replaced by loop-free stubs that implement their CONTRACTS
+//! (lex/verif_kani/common.rs); the real functions are discharged against the same
+//! contracts in lex/verif_kani/c07.rs.  Reason: every `if let Ok(..) = expect(..)`
+//! of a `lex_enum!` lexer drops a `Result<&str, LexError>` whose niche-encoded tag
+//! CBMC does not fold, so the (dead) drop glue of LexErrorKind - two BTreeSet
+//! drops - is explored once per spelling tried; with memcmp's loop in the way the
+//! unwind bound cannot be 1 and nothing finishes (measured: > 10 min, 13 GB for
+//! `LogicalOp::lex("or")`).
 use super::super::*;
 use crate::lex::verif_kani::common::is_suffix_at;
 
@@ -12,17 +20,12 @@ use crate::lex::verif_kani::common::is_suffix_at;
 macro_rules! lexes {
     ($ty:ty, $s:literal, $n:literal, $v:pat) => {{
         let s: &'static str = $s;
-        match <$ty as Lex<'_>>::lex(s) {
-            Ok((op, rest)) => {
-                assert!(matches!(op, $v), "an alias denotes the same operator as the canonical spelling");
-                assert!(is_suffix_at(s, rest, $n), "exactly the operator's characters are consumed");
-                kani::cover!(true, "spelling accepted");
-            }
-            Err(e) => {
-                std::mem::forget(e);
-                assert!(false, "every documented spelling is accepted");
-            }
-        }
+        let r = <$ty as Lex<'_>>::lex(s);
+        assert!(r.is_ok(), "every documented spelling is accepted");
+        assert!(matches!(&r, Ok(($v, _))), "an alias denotes the same operator as the canonical spelling");
+        assert!(matches!(&r, Ok((_, rest)) if is_suffix_at(s, rest, $n)), "exactly the operator's characters are consumed");
+        kani::cover!(r.is_ok(), "spelling accepted");
+        std::mem::forget(r);
     }};
 }
 
@@ -36,131 +39,129 @@ macro_rules! rejects {
     }};
 }
 
-#[kani::proof]
-#[kani::unwind(4)]
-fn logical_op__or_aliases() {
+macro_rules! obligation {
+    ($name:ident, $body:block) => {
+        #[kani::proof]
+        #[kani::unwind(1)]
+        #[kani::stub(crate::lex::expect, crate::lex::verif_kani::common::expect__contract)]
+        fn $name() $body
+    };
+}
+
+// --- LogicalOp: or/||, xor/^^, and/&&
+
+obligation!(logical_op__or, {
     lexes!(LogicalOp, "or", 2, LogicalOp::Or);
-    lexes!(LogicalOp, "||", 2, LogicalOp::Or);
     lexes!(LogicalOp, "or x", 2, LogicalOp::Or);
+    lexes!(LogicalOp, "or(", 2, LogicalOp::Or);
+});
+
+obligation!(logical_op__pipe_pipe, {
+    lexes!(LogicalOp, "||", 2, LogicalOp::Or);
     lexes!(LogicalOp, "|| x", 2, LogicalOp::Or);
     lexes!(LogicalOp, "||x", 2, LogicalOp::Or);
-}
+});
 
-#[kani::proof]
-#[kani::unwind(5)]
-fn logical_op__xor_aliases() {
+obligation!(logical_op__xor, {
     lexes!(LogicalOp, "xor", 3, LogicalOp::Xor);
-    lexes!(LogicalOp, "^^", 2, LogicalOp::Xor);
     lexes!(LogicalOp, "xor x", 3, LogicalOp::Xor);
+});
+
+obligation!(logical_op__caret_caret, {
+    lexes!(LogicalOp, "^^", 2, LogicalOp::Xor);
     lexes!(LogicalOp, "^^ x", 2, LogicalOp::Xor);
-    lexes!(LogicalOp, "^^x", 2, LogicalOp::Xor);
-}
+});
 
-#[kani::proof]
-#[kani::unwind(5)]
-fn logical_op__and_aliases() {
+obligation!(logical_op__and, {
     lexes!(LogicalOp, "and", 3, LogicalOp::And);
-    lexes!(LogicalOp, "&&", 2, LogicalOp::And);
     lexes!(LogicalOp, "and x", 3, LogicalOp::And);
-    lexes!(LogicalOp, "&& x", 2, LogicalOp::And);
-    lexes!(LogicalOp, "&&x", 2, LogicalOp::And);
-}
+});
 
-/// A single `|`, `&` or `^` is not a logical operator (`&` is the integer
-/// bitwise_and of comparisons).
-#[kani::proof]
-#[kani::unwind(4)]
-fn logical_op__single_char_rejected() {
+obligation!(logical_op__amp_amp, {
+    lexes!(LogicalOp, "&&", 2, LogicalOp::And);
+    lexes!(LogicalOp, "&& x", 2, LogicalOp::And);
+});
+
+// A single `|` or `&` is not a logical operator (`&` is the integer
+// bitwise_and of comparisons).
+obligation!(logical_op__single_char_rejected, {
     rejects!(LogicalOp, "| x");
     rejects!(LogicalOp, "& x");
-    rejects!(LogicalOp, "^ x");
-}
+});
 
-/// not / !  (and `!` directly followed by `=`-less text is still the unary operator)
-#[kani::proof]
-#[kani::unwind(5)]
-fn unary_op__not_aliases() {
+// --- UnaryOp: not / !
+
+obligation!(unary_op__not, {
     lexes!(UnaryOp, "not", 3, UnaryOp::Not);
-    lexes!(UnaryOp, "!", 1, UnaryOp::Not);
     lexes!(UnaryOp, "not x", 3, UnaryOp::Not);
+    lexes!(UnaryOp, "not(", 3, UnaryOp::Not);
+});
+
+obligation!(unary_op__bang, {
+    lexes!(UnaryOp, "!", 1, UnaryOp::Not);
     lexes!(UnaryOp, "! x", 1, UnaryOp::Not);
     lexes!(UnaryOp, "!x", 1, UnaryOp::Not);
     rejects!(UnaryOp, "x");
-}
+});
 
-/// any, all
-#[kani::proof]
-#[kani::unwind(5)]
-fn quantifier_op__any_all() {
+// --- QuantifierOp: any, all
+
+obligation!(quantifier_op__any, {
     lexes!(QuantifierOp, "any", 3, QuantifierOp::Any);
-    lexes!(QuantifierOp, "all", 3, QuantifierOp::All);
     lexes!(QuantifierOp, "any x", 3, QuantifierOp::Any);
-    lexes!(QuantifierOp, "all x", 3, QuantifierOp::All);
     lexes!(QuantifierOp, "any(", 3, QuantifierOp::Any);
+});
+
+obligation!(quantifier_op__all, {
+    lexes!(QuantifierOp, "all", 3, QuantifierOp::All);
+    lexes!(QuantifierOp, "all x", 3, QuantifierOp::All);
     lexes!(QuantifierOp, "all(", 3, QuantifierOp::All);
+});
+
+// --- K3: lex_combining_op skips spaces / CR / LF on both sides of an operator,
+// returns the same operator for both spellings and every layout, and leaves the
+// input untouched when there is no operator.
+
+macro_rules! combining {
+    ($s:literal, $n:literal, $v:pat) => {{
+        let s: &'static str = $s;
+        let (op, rest) = LogicalExpr::lex_combining_op(s);
+        assert!(matches!(op, $v), "layout and spelling do not change the operator");
+        assert!(is_suffix_at(s, rest, $n), "blanks on both sides of the operator are skipped; nothing else is");
+        kani::cover!(true, "reached");
+    }};
 }
 
-/// K3: lex_combining_op skips spaces / CR / LF on both sides of an operator,
-/// returns the same operator for both spellings and every layout, and leaves
-/// the input untouched when there is no operator.
-#[kani::proof]
-#[kani::unwind(5)]
-fn lex_combining_op__space_insensitive_and() {
-    let s = " \n&& \r x";
-    let (op, rest) = LogicalExpr::lex_combining_op(s);
-    assert!(matches!(op, Some(LogicalOp::And)) && is_suffix_at(s, rest, 7), "spaces and line breaks around the operator are skipped");
-    let s = "and x";
-    let (op, rest) = LogicalExpr::lex_combining_op(s);
-    assert!(matches!(op, Some(LogicalOp::And)) && is_suffix_at(s, rest, 4), "layout and spelling do not change the operator");
-    let s = "&&x";
-    let (op, rest) = LogicalExpr::lex_combining_op(s);
-    assert!(matches!(op, Some(LogicalOp::And)) && is_suffix_at(s, rest, 2));
-    kani::cover!(true);
-}
-
-#[kani::proof]
-#[kani::unwind(5)]
-fn lex_combining_op__space_insensitive_or_xor() {
-    let s = "\r\n|| x";
-    let (op, rest) = LogicalExpr::lex_combining_op(s);
-    assert!(matches!(op, Some(LogicalOp::Or)) && is_suffix_at(s, rest, 5));
-    let s = " or\nx";
-    let (op, rest) = LogicalExpr::lex_combining_op(s);
-    assert!(matches!(op, Some(LogicalOp::Or)) && is_suffix_at(s, rest, 4));
-    let s = " xor  x";
-    let (op, rest) = LogicalExpr::lex_combining_op(s);
-    assert!(matches!(op, Some(LogicalOp::Xor)) && is_suffix_at(s, rest, 6));
-    let s = "^^x";
-    let (op, rest) = LogicalExpr::lex_combining_op(s);
-    assert!(matches!(op, Some(LogicalOp::Xor)) && is_suffix_at(s, rest, 2));
-    kani::cover!(true);
-}
-
-#[kani::proof]
-#[kani::unwind(5)]
-fn lex_combining_op__no_operator_input_untouched() {
-    let s = "  )";
-    let (op, rest) = LogicalExpr::lex_combining_op(s);
-    assert!(op.is_none() && is_suffix_at(s, rest, 0), "no operator: input untouched");
-    let s = "";
-    let (op, rest) = LogicalExpr::lex_combining_op(s);
-    assert!(op.is_none() && is_suffix_at(s, rest, 0));
-    kani::cover!(true);
-}
-
-macro_rules! probe {
-    ($name:ident, $s:literal, $n:literal, $v:pat) => {
+macro_rules! combining_obligation {
+    ($name:ident, $body:block) => {
         #[kani::proof]
-        #[kani::unwind(4)]
-        fn $name() {
-            let s: &'static str = $s;
-            let r = LogicalOp::lex(s);
-            assert!(matches!(&r, Ok(($v, rest)) if is_suffix_at(s, rest, $n)));
-            std::mem::forget(r);
-        }
+        #[kani::unwind(1)]
+        #[kani::stub(crate::lex::expect, crate::lex::verif_kani::common::expect__contract)]
+        #[kani::stub(crate::lex::skip_space, crate::lex::verif_kani::common::skip_space__contract)]
+        fn $name() $body
     };
 }
-probe!(probe_1, "or", 2, LogicalOp::Or);
-probe!(probe_2, "||", 2, LogicalOp::Or);
-probe!(probe_3, "xor", 3, LogicalOp::Xor);
-probe!(probe_4, "^^", 2, LogicalOp::Xor);
+
+combining_obligation!(lex_combining_op__or_layouts, {
+    combining!("or x", 3, Some(LogicalOp::Or));
+    combining!(" \r\nor\n x", 7, Some(LogicalOp::Or));
+    combining!("||x", 2, Some(LogicalOp::Or));
+    combining!("  ||  x", 6, Some(LogicalOp::Or));
+});
+
+combining_obligation!(lex_combining_op__xor_layouts, {
+    combining!(" xor x", 5, Some(LogicalOp::Xor));
+    combining!("\n^^\nx", 4, Some(LogicalOp::Xor));
+});
+
+combining_obligation!(lex_combining_op__and_layouts, {
+    combining!("and x", 4, Some(LogicalOp::And));
+    combining!(" \n&& \r x", 7, Some(LogicalOp::And));
+});
+
+combining_obligation!(lex_combining_op__no_operator_input_untouched, {
+    combining!("  )", 0, None);
+    combining!("", 0, None);
+    // a tab is not white space: no operator is found behind it
+    combining!("\tor x", 0, None);
+});
